@@ -36,6 +36,17 @@ func shapes(tier string) []*tbin.Shape {
 	all = append(all, tbin.T2()...)
 	if tier == "thorough" {
 		all = append(all, tbin.T3Small()...)
+	} else {
+		// a few depth-3 shapes in the quick tier: name-addressed edits two or more levels below the root
+		// (struct -> container -> struct, container -> container -> struct)
+		in := tbin.StructS(tbin.SF(1, tbin.Sc(tbin.I32)), tbin.SF(2, tbin.Sc(tbin.STRING)))
+		all = append(all,
+			tbin.StructS(tbin.SF(1, tbin.MapS(tbin.Sc(tbin.BYTE), in))),
+			tbin.StructS(tbin.SF(1, tbin.ListS(in)), tbin.SF(2, tbin.Sc(tbin.I64))),
+			tbin.ListS(tbin.MapS(tbin.Sc(tbin.STRING), in)),
+			tbin.MapS(tbin.Sc(tbin.I32), tbin.ListS(in)),
+			tbin.StructS(tbin.SF(3, tbin.StructS(tbin.SF(1, in)))),
+		)
 	}
 	return all
 }
